@@ -36,6 +36,17 @@ func Y(site string) {
 	}
 }
 
+// SHook is nil unless a simulation installs it.
+var SHook func(site string)
+
+// S is called before every statement of the instrumented lint and helper packages: the points
+// at which a fault-injecting simulation may make the running rule panic, or a scheduler may switch.
+func S(site string) {
+	if h := SHook; h != nil {
+		h(site)
+	}
+}
+
 // Clock is nil unless a simulation installs a simulated clock. Every textual
 // time.Now / time.Since / time.Until of the instrumented packages reads it.
 var Clock func(site string) time.Time
@@ -106,8 +117,10 @@ func instrumentMain(args []string) {
 	if err := os.WriteFile(filepath.Join(dst, "verifyield", "verifyield.go"), []byte(verifyieldSrc), 0o644); err != nil {
 		die(2, "instrument: %v", err)
 	}
-	fmt.Printf("instrument: %d functions in %d files, %d clock sites\n", nFuncs, nFiles, nClockSites)
+	fmt.Printf("instrument: %d functions in %d files, %d statement sites, %d clock sites\n", nFuncs, nFiles, instrStmtCount, nClockSites)
 }
+
+var instrStmtCount int
 
 func instrumentFile(rel string, data []byte) ([]byte, int, int, error) {
 	fset := token.NewFileSet()
@@ -121,7 +134,10 @@ func instrumentFile(rel string, data []byte) ([]byte, int, int, error) {
 		text string
 	}
 	var inss []ins
+	nStmt := 0
 	dir := filepath.ToSlash(filepath.Dir(rel))
+	top := strings.Split(filepath.ToSlash(rel), "/")[0]
+	stmts := top == "lints" || top == "util" // rule bodies and their helpers: always below the framework's recover
 	for _, d := range f.Decls {
 		fd, ok := d.(*ast.FuncDecl)
 		if !ok || fd.Body == nil || fd.Name.Name == "init" {
@@ -139,6 +155,32 @@ func instrumentFile(rel string, data []byte) ([]byte, int, int, error) {
 		}
 		off := fset.Position(fd.Body.Lbrace).Offset + 1
 		inss = append(inss, ins{off: off, text: fmt.Sprintf(" verifyield.Y(%q);", dir+"."+name)})
+		if stmts {
+			// a site before every statement of every block of the function (nested blocks, case
+			// clauses and function literals included)
+			addList := func(list []ast.Stmt) {
+				for _, st := range list {
+					switch st.(type) {
+					case *ast.EmptyStmt, *ast.CaseClause, *ast.CommClause:
+						continue // (the "statements" of a switch / select body are its clauses)
+					}
+					pos := fset.Position(st.Pos())
+					inss = append(inss, ins{off: pos.Offset, text: fmt.Sprintf("verifyield.S(\"%s:%d\"); ", filepath.ToSlash(rel), pos.Line)})
+					nStmt++
+				}
+			}
+			ast.Inspect(fd.Body, func(n ast.Node) bool {
+				switch b := n.(type) {
+				case *ast.BlockStmt:
+					addList(b.List)
+				case *ast.CaseClause:
+					addList(b.Body)
+				case *ast.CommClause:
+					addList(b.Body)
+				}
+				return true
+			})
+		}
 	}
 	// the clock seam: every selector time.Now / time.Since / time.Until (called or passed as a
 	// value) is redirected to the simulated clock of package verifyield
@@ -176,7 +218,8 @@ func instrumentFile(rel string, data []byte) ([]byte, int, int, error) {
 	if len(inss) == 0 {
 		return data, 0, 0, nil
 	}
-	nFuncs := len(inss) - nClock
+	nFuncs := len(inss) - nClock - nStmt
+	instrStmtCount += nStmt
 	if nClock > 0 {
 		// keep the time import used whatever else the file does with it
 		inss = append(inss, ins{off: len(data), text: "\nvar _ = " + timeName + ".Now\n"})
